@@ -80,6 +80,22 @@ def run_one(chk, sseed, nrepos=1, directed=None):
             versions.append(nv)
             kinds.append("removal-only")
             chk.count("removal_only_histories_with_removals", 1 if removed else 0)
+        if directed == "flavour-drop":
+            # the last update only withdraws something, byte for byte and date for date everything else stays: a release flavour
+            # (InRelease, or Release.gpg), so that the final run transfers nothing at all - and still has to publish and clean
+            nv = copy.deepcopy(versions[-1])
+            dropped = 0
+            for r in nv:
+                for cs in r["codenames"].values():
+                    fl = list(cs.get("flavours", ["InRelease", "Release", "Release.gpg"]))
+                    cand = [f for f in fl if f == "Release.gpg" or (f == "InRelease" and "Release" in fl)]
+                    if cand:
+                        fl.remove(rng.choice(cand))
+                        cs["flavours"] = fl
+                        dropped += 1
+            versions.append(nv)
+            kinds.append("flavour-drop")
+            chk.count("flavour_drop_histories_with_a_drop", 1 if dropped else 0)
         final = versions[-1]
         stores_f = w.stores(final)
         if any(common.has_s3(r, w.cfgs[r["url"]], stores_f[r["url"]]) for r in final):
@@ -216,6 +232,8 @@ def run(chk, tier, rng):
     run_one(chk, "C08-directed-S13", directed="kill-before-pool-utime")
     for i in range(4 if tier == "quick" else 40):
         run_one(chk, f"C08-removal-{chk.seed}-{i}", directed="removal-only")
+    for i in range(4 if tier == "quick" else 40):
+        run_one(chk, f"C08-flavour-{chk.seed}-{i}", directed="flavour-drop")
     for i in range(n):
         run_one(chk, f"C08-{chk.seed}-{i}", nrepos=2 if i % 6 == 5 else 1)
     chk.assumptions += ["S1: immutable pool paths", "S4: wipe protection disabled (wipe_*_ratio 0)", "S3 worlds skipped",
